@@ -49,6 +49,65 @@ type Options struct {
 	NoMapOrder bool `json:"no_map_order"`
 	// Acc lists designated shared locations "TypeName.field" whose accesses are reported to the race detector.
 	Acc []string `json:"acc"`
+	// ReplaceImports substitutes further import paths (e.g. the cgo package llama by a pure-Go model of it);
+	// the replacement must have the same package name and offer every name the code uses (else: compile error).
+	ReplaceImports map[string]string `json:"replace_imports"`
+	// Extract copies a run of top-level statements of a function body into a new function of the same package
+	// (`func As() error { ...; return nil }`), so that a harness can execute exactly that part of the real code
+	// (e.g. the start-up repair sequence inside Serve). The run starts at the first statement that assigns to
+	// From and ends before the first later statement that assigns to Until; a marker that is not found is an error.
+	Extract []ExtractSpec `json:"extract"`
+}
+
+type ExtractSpec struct {
+	File  string `json:"file"`
+	Func  string `json:"func"`
+	From  string `json:"from"`
+	Until string `json:"until"`
+	As    string `json:"as"`
+}
+
+func assignsTo(st ast.Stmt, name string) bool {
+	as, ok := st.(*ast.AssignStmt)
+	if !ok {
+		return false
+	}
+	for _, l := range as.Lhs {
+		if id, ok := l.(*ast.Ident); ok && id.Name == name {
+			return true
+		}
+	}
+	return false
+}
+
+func extract(af *ast.File, sp ExtractSpec) error {
+	for _, d := range af.Decls {
+		fd, ok := d.(*ast.FuncDecl)
+		if !ok || fd.Recv != nil || fd.Name.Name != sp.Func || fd.Body == nil {
+			continue
+		}
+		from, until := -1, -1
+		for i, st := range fd.Body.List {
+			if from < 0 && assignsTo(st, sp.From) {
+				from = i
+			} else if from >= 0 && assignsTo(st, sp.Until) {
+				until = i
+				break
+			}
+		}
+		if from < 0 || until < 0 {
+			return fmt.Errorf("extract %s: statements assigning %q ... %q not found in func %s", sp.As, sp.From, sp.Until, sp.Func)
+		}
+		body := append([]ast.Stmt{}, fd.Body.List[from:until]...)
+		body = append(body, &ast.ReturnStmt{Results: []ast.Expr{ast.NewIdent("nil")}})
+		af.Decls = append(af.Decls, &ast.FuncDecl{
+			Name: ast.NewIdent(sp.As),
+			Type: &ast.FuncType{Params: &ast.FieldList{}, Results: &ast.FieldList{List: []*ast.Field{{Type: ast.NewIdent("error")}}}},
+			Body: &ast.BlockStmt{List: body},
+		})
+		return nil
+	}
+	return fmt.Errorf("extract %s: func %s not found in %s", sp.As, sp.Func, sp.File)
 }
 
 var defaultShims = map[string]string{
@@ -163,6 +222,13 @@ func Package(repoDir, pkgDir string, files []string, outDir string, opts Options
 		if err := rw.file_(af); err != nil {
 			return nil, fmt.Errorf("%s/%s: %v", pkgDir, names[i], err)
 		}
+		for _, sp := range opts.Extract {
+			if sp.File == names[i] {
+				if err := extract(af, sp); err != nil {
+					return nil, fmt.Errorf("%s/%s: %v", pkgDir, names[i], err)
+				}
+			}
+		}
 		var buf bytes.Buffer
 		if err := format.Node(&buf, fset, af); err != nil {
 			return nil, fmt.Errorf("%s/%s: print: %v", pkgDir, names[i], err)
@@ -259,6 +325,9 @@ func (r *rewriter) file_(f *ast.File) error {
 		for k, v := range fsShims {
 			shims[k] = v
 		}
+	}
+	for k, v := range r.opts.ReplaceImports {
+		shims[k] = v
 	}
 	r.accSet = map[string]bool{}
 	for _, a := range r.opts.Acc {
